@@ -1287,6 +1287,7 @@ int32 matrixRegisterSession(ssl_t *ssl)
     g_sessionTable[i].minVer = psEncodeVersionMin(GET_NGTD_VER(ssl));
 
     g_sessionTable[i].extendedMasterSecret = ssl->extFlags.extended_master_secret;
+    ssl->sessionIdInTable = 1;
 
     psUnlockMutex(&g_sessionTableLock);
     return i;
@@ -1305,6 +1306,18 @@ int32 matrixClearSession(ssl_t *ssl, int32 remove)
     {
         return PS_ARG_FAIL;
     }
+    if (!ssl->sessionIdInTable)
+    {
+        /* The id is only what the client sent: this session holds no table
+           entry, and the entry the id names belongs to someone else */
+        if (remove)
+        {
+            Memset(ssl->sessionId, 0x0, SSL_MAX_SESSION_ID_SIZE);
+            ssl->sessionIdLen = 0;
+            ssl->flags &= ~SSL_FLAGS_RESUMED;
+        }
+        return PS_SUCCESS;
+    }
     id = ssl->sessionId;
 
     i = (id[3] << 24) + (id[2] << 16) + (id[1] << 8) + id[0];
@@ -1312,6 +1325,7 @@ int32 matrixClearSession(ssl_t *ssl, int32 remove)
     {
         return PS_LIMIT_FAIL;
     }
+    ssl->sessionIdInTable = 0;
     psLockMutex(&g_sessionTableLock);
     g_sessionTable[i].inUse -= 1;
     if (g_sessionTable[i].inUse == 0)
@@ -1409,6 +1423,7 @@ int32 matrixResumeSession(ssl_t *ssl)
     {
         DLListRemove(&g_sessionTable[i].chronList);
     }
+    ssl->sessionIdInTable = 1;
     psUnlockMutex(&g_sessionTableLock);
 
     return PS_SUCCESS;
@@ -1429,9 +1444,11 @@ int32 matrixUpdateSession(ssl_t *ssl)
     {
         return PS_ARG_FAIL;
     }
-    if (ssl->sessionIdLen == 0)
+    if (ssl->sessionIdLen == 0 || !ssl->sessionIdInTable)
     {
-        /* No table entry.  matrixRegisterSession was full of inUse entries */
+        /* No table entry.  matrixRegisterSession was full of inUse entries,
+           or the session id is only the value the client sent (ticket
+           resumption, TLS 1.3): the entry it names is not ours to update */
         return PS_LIMIT_FAIL;
     }
     id = ssl->sessionId;
